@@ -1,6 +1,6 @@
 (* A reader of the exported .y file (the line reader the C30 oracle uses), the boolean well-formedness
    predicate under which reading the model's rendering back is exact, and the rule section of Bison.bison_text
-   as a function of its own.  Executable definitions only; the proofs are in Syn/Bison_proofs2.v. *)
+   as a function of its own.  Executable definitions only; the proofs are in Syn/BisonRead_proofs.v. *)
 From Coq Require Import List ZArith Bool Arith.
 From TM Require Import Util.Ident Syn.Expr Syn.Sets Syn.Bison.
 Import ListNotations.
